@@ -39,6 +39,7 @@ type c14Case struct {
 	PingMs    int         `json:"ping_ms"`
 	Reconnect bool        `json:"reconnect"`
 	Garbage   int         `json:"garbage,omitempty"`   // malformed / invalid-id / batch frames arriving at the server from the peer while the workload runs
+	Outage    bool        `json:"outage,omitempty"`    // at the end the peer falls silent for three client timeouts with every redial refused, then the path heals
 	StallReq  bool        `json:"stall_req,omitempty"` // at the end the peer stops reading for longer than the client's timeout while the client is sending an 8 MiB request (pings keep ticking)
 	CloseMid  int         `json:"close_mid,omitempty"` // > 0: at the end the client's closer is invoked while the client is in the middle of writing a reverse-call response of this many bytes
 	Rules     []*HookRule `json:"rules,omitempty"`
@@ -246,7 +247,28 @@ func runC14(c c14Case) (*Violation, string) {
 	if foreign != nil {
 		return foreign, ""
 	}
-	if c.StallReq {
+	if c.Outage {
+		// silence for several timeouts while redials are refused: the client's timeout path and its redial goroutine
+		// work on the same connection state for a while; then the path heals and a call must succeed
+		T := 100*ping + 300*time.Millisecond
+		rig.Proxy.SetPolicy("reject")
+		rig.Proxy.CutAll("blackhole")
+		time.Sleep(3*T + T/3)
+		rig.Proxy.SetPolicy("forward")
+		// the redial gets through on its own, with the application quiet (a call issued right now would put a lock
+		// hand-over between the timeout path and the redial, hiding unsynchronised accesses from the race detector)
+		time.Sleep(100 * time.Millisecond)
+		healed := false
+		for deadline := time.Now().Add(5*T + 3*time.Second); time.Now().Before(deadline); time.Sleep(5 * time.Millisecond) {
+			if rig.Probe(cl, time.Second) == nil {
+				healed = true
+				break
+			}
+		}
+		if !healed {
+			return violf("workload-wedged", "after an outage of three timeouts (redials refused) the path healed but no call succeeded"), ""
+		}
+	} else if c.StallReq {
 		// the peer stops reading for longer than the client's timeout while the client is in the middle of a request
 		// much larger than the socket buffers; the client's pinger keeps ticking meanwhile. The client may give the
 		// connection up (it is silent, after all), but it must not let a second writer onto a connection whose
@@ -326,6 +348,9 @@ func c14NT(c c14Case) (bool, []string) {
 	if c.StallReq {
 		cl = append(cl, "peer_stops_reading_mid_request")
 	}
+	if c.Outage {
+		cl = append(cl, "outage_with_refused_redials")
+	}
 	if c.Reconnect && c.Reverse > 0 {
 		cl = append(cl, "reverse_handler_running_across_reconnect")
 	}
@@ -344,7 +369,7 @@ func c14NT(c c14Case) (bool, []string) {
 	return kinds >= 3 && multi, cl
 }
 
-const c14Rule = "one connection with, simultaneously: 0-6 caller goroutines x 1-8 calls with result sizes 10 B - 40 KiB, 0-3 running calls cancelled (cancel path 1), 0-4 subscriptions of 4-60 padded values (registration replies, values, closes; some cancelled through their context = cancel path 2), 0-3 forward calls that reverse-call three times, pings every 1-5 ms from both sides, optionally one connection reset with calls continuing across the swap, optionally 5-60 malformed / invalid-id / batch frames arriving from the peer meanwhile, optionally the client's closer invoked while the client is inside a 6-12 MiB multi-fragment reverse-call response (link paused for 40 ms), optionally the peer not reading for longer than the client's timeout while the client sends an 8 MiB request with its pinger ticking, a reverse call whose client-side handler is still running when the connection is replaced; 0-3 delays of 50 us - 2 ms inside the writers' critical sections (write.locked). Non-trivial = >=3 writer kinds active and at least one multi-frame message; distinct by descriptor hash"
+const c14Rule = "one connection with, simultaneously: 0-6 caller goroutines x 1-8 calls with result sizes 10 B - 40 KiB, 0-3 running calls cancelled (cancel path 1), 0-4 subscriptions of 4-60 padded values (registration replies, values, closes; some cancelled through their context = cancel path 2), 0-3 forward calls that reverse-call three times, pings every 1-5 ms from both sides, optionally one connection reset with calls continuing across the swap, optionally 5-60 malformed / invalid-id / batch frames arriving from the peer meanwhile, optionally the client's closer invoked while the client is inside a 6-12 MiB multi-fragment reverse-call response (link paused for 40 ms), optionally the peer not reading for longer than the client's timeout while the client sends an 8 MiB request with its pinger ticking, a reverse call whose client-side handler is still running when the connection is replaced, an outage of three client timeouts with every redial refused followed by a healed path; 0-3 delays of 50 us - 2 ms inside the writers' critical sections (write.locked). Non-trivial = >=3 writer kinds active and at least one multi-frame message; distinct by descriptor hash"
 
 func TestC14(t *testing.T) {
 	rec := NewRec("C14", c14Rule)
@@ -386,7 +411,7 @@ func TestC14(t *testing.T) {
 			}
 		}
 		if sh == 0 {
-			rec.RequireClass("peer_stops_reading_mid_request", "close_during_own_write") // grid cases of the first shard
+			rec.RequireClass("peer_stops_reading_mid_request", "close_during_own_write", "outage_with_refused_redials") // grid cases of the first shard
 			c := base
 			c.Garbage = 40
 			c.Sizes = []int{40000, 20000, 9000}
@@ -397,6 +422,10 @@ func TestC14(t *testing.T) {
 			c = c14Case{Callers: 1, CallsEach: 2, Sizes: []int{10}, PingMs: 2, CloseMid: 8 << 20, Garbage: 5}
 			run(t, c)
 			c = c14Case{Callers: 2, CallsEach: 2, Sizes: []int{10, 5000}, PingMs: 2, StallReq: true}
+			run(t, c)
+			c = c14Case{Callers: 2, CallsEach: 2, Sizes: []int{10, 5000}, Reverse: 1, PingMs: 1, Outage: true}
+			run(t, c)
+			c = c14Case{Callers: 1, CallsEach: 1, Sizes: []int{10}, PingMs: 3, Outage: true}
 			run(t, c)
 		}
 	})
@@ -413,6 +442,7 @@ func TestC14(t *testing.T) {
 			c.Garbage = rapid.IntRange(5, 60).Draw(rt, "garbage")
 		}
 		c.StallReq = rapid.IntRange(0, 11).Draw(rt, "stallreq") == 0
+		c.Outage = !c.StallReq && rapid.IntRange(0, 9).Draw(rt, "outage") == 0
 		if rapid.IntRange(0, 5).Draw(rt, "closemidkind") == 0 {
 			// more than the socket buffers on the path hold, so that the writer really is inside the message
 			c.CloseMid = rapid.SampledFrom([]int{6 << 20, 8 << 20, 12 << 20}).Draw(rt, "closemid")
